@@ -5,10 +5,14 @@
      id F csr all [code cid]+ [first last cid]+ [probe]+              hand-made CID file
      id U csr all [code text]+ [first last [text]+ ]+ [probe]+        hand-made ToUnicode file
    csr = [lo hi]+, map = "-" or code:value,... , text = "-" or hex runes joined by '.'
+     id WC name wmode ros parent csr singles ranges notdef-singles notdef-ranges   -> write_tokens_cid, token wire
+     id WT name parent csr singles ranges                                         -> write_tokens_tu
+     id RC tokens / id RT tokens                                                  -> read_tokens_*, structural wire
    Output: id L=lookup results A=collected enumeration G=GetMapping
    I/O and parsing only; every result comes from the extracted functions. *)
 open Wire
 open CMapRanges
+open CMapText
 
 let split c s = Stdlib.List.filter (fun x -> x <> "") (Stdlib.String.split_on_char c s)
 
@@ -55,6 +59,59 @@ let rd_trange = function
     let (vals, r) = counted (function v :: r -> (text_of v, r) | _ -> failwith "val") rest in
     (((bytes_of_hex a, bytes_of_hex b), vals), r)
   | _ -> failwith "range"
+
+(* ---- text level: wire formats ---- *)
+let hex_or_dash l = hex_of_bytes l
+let colon s = Stdlib.String.split_on_char ':' s
+let semis s = if s = "-" then [] else Stdlib.String.split_on_char ';' s
+
+let tok_wire ts =
+  match ts with
+  | [] -> "-"
+  | _ ->
+    Stdlib.String.concat "," (Stdlib.List.map (fun t ->
+      match t with
+      | TInt z -> "i" ^ string_of_z z
+      | TStr s -> "s" ^ hex_or_dash s
+      | TLit n -> "l" ^ hex_or_dash n
+      | TExec n -> "x" ^ hex_or_dash n
+      | TArr vs -> "a" ^ Stdlib.String.concat "." (Stdlib.List.map hex_or_dash vs)) ts)
+
+let tok_of_wire s =
+  if s = "-" then []
+  else Stdlib.List.map (fun p ->
+    let body = Stdlib.String.sub p 1 (Stdlib.String.length p - 1) in
+    match p.[0] with
+    | 'i' -> TInt (z_of_string body)
+    | 's' -> TStr (bytes_of_hex body)
+    | 'l' -> TLit (bytes_of_hex body)
+    | 'x' -> TExec (bytes_of_hex body)
+    | 'a' -> TArr (if body = "" then [] else Stdlib.List.map bytes_of_hex (Stdlib.String.split_on_char '.' body))
+    | _ -> failwith "bad token") (Stdlib.String.split_on_char ',' s)
+
+let opt_name s = if s = "-" then None else Some (bytes_of_hex (Stdlib.String.sub s 1 (Stdlib.String.length s - 1)))
+let csr_in s = Stdlib.List.map (fun e -> match colon e with [a; b] -> (bytes_of_hex a, bytes_of_hex b) | _ -> failwith "csr") (semis s)
+let csingles_in s = Stdlib.List.map (fun e -> match colon e with [a; v] -> (bytes_of_hex a, n_of_string v) | _ -> failwith "single") (semis s)
+let cranges_in s = Stdlib.List.map (fun e -> match colon e with [a; b; v] -> ((bytes_of_hex a, bytes_of_hex b), n_of_string v) | _ -> failwith "range") (semis s)
+let ros_in s = if s = "-" then None else match colon s with [a; b; c] -> Some ((bytes_of_hex a, bytes_of_hex b), z_of_string c) | _ -> failwith "ros"
+let tsingles_in s = Stdlib.List.map (fun e -> match colon e with [a; v] -> (bytes_of_hex a, text_of v) | _ -> failwith "tsingle") (semis s)
+let tranges_in s = Stdlib.List.map (fun e -> match colon e with
+    | [a; b; n; vs] ->
+      let n = int_of_string n in
+      let vals = if n = 0 then [] else Stdlib.List.map text_of (Stdlib.String.split_on_char '|' vs) in
+      ((bytes_of_hex a, bytes_of_hex b), vals)
+    | _ -> failwith "trange") (semis s)
+
+let list_out f l = match l with [] -> "-" | _ -> Stdlib.String.concat ";" (Stdlib.List.map f l)
+let csr_out l = list_out (fun (a, b) -> hex_or_dash a ^ ":" ^ hex_or_dash b) l
+let csingles_out l = list_out (fun (a, v) -> hex_or_dash a ^ ":" ^ string_of_n v) l
+let cranges_out l = list_out (fun ((a, b), v) -> hex_or_dash a ^ ":" ^ hex_or_dash b ^ ":" ^ string_of_n v) l
+let par_out p = match p with None -> "-" | Some n -> "=" ^ hex_or_dash n
+let ros_out r = match r with None -> "-" | Some ((a, b), c) -> hex_or_dash a ^ ":" ^ hex_or_dash b ^ ":" ^ string_of_z c
+let tsingles_out l = list_out (fun (a, v) -> hex_or_dash a ^ ":" ^ string_of_text v) l
+let tranges_out l = list_out (fun ((a, b), vs) ->
+    hex_or_dash a ^ ":" ^ hex_or_dash b ^ ":" ^ string_of_int (Stdlib.List.length vs) ^ ":" ^
+    Stdlib.String.concat "|" (Stdlib.List.map string_of_text vs)) l
 
 let lookups_cid f probes = Stdlib.String.concat "," (Stdlib.List.map (fun p -> string_of_n (lookup_cid f p)) probes)
 let lookups_tu f probes =
@@ -122,5 +179,27 @@ let () =
          else if all = "1" then Printf.printf "%s L=%s A=%s\n" id (lookups_tu f probes) (tu_map_out (collect (all_tu csr f)))
          else Printf.printf "%s L=%s\n" id (lookups_tu f probes)
        | [] -> Printf.printf "%s badcase\n" id)
+    | id :: "WC" :: [name; wmode; ros; par; csr; ss; rr; nds; ndr] ->
+      let t = { ct_name = bytes_of_hex name; ct_wmode = n_of_string wmode; ct_ros = ros_in ros; ct_parent = opt_name par;
+                ct_csr = csr_in csr; ct_singles = csingles_in ss; ct_ranges = cranges_in rr;
+                ct_nd_singles = csingles_in nds; ct_nd_ranges = cranges_in ndr } in
+      Printf.printf "%s %s\n" id (tok_wire (write_tokens_cid t))
+    | id :: "WT" :: [name; par; csr; ss; rr] ->
+      let t = { tt_name = bytes_of_hex name; tt_parent = opt_name par; tt_csr = csr_in csr;
+                tt_singles = tsingles_in ss; tt_ranges = tranges_in rr } in
+      Printf.printf "%s %s\n" id (tok_wire (write_tokens_tu t))
+    | id :: "RC" :: [toks] ->
+      (match read_tokens_cid (tok_of_wire toks) with
+       | None -> Printf.printf "%s none\n" id
+       | Some t ->
+         Printf.printf "%s %s %s %s %s %s %s %s %s %s\n" id (hex_or_dash t.ct_name) (string_of_n t.ct_wmode) (ros_out t.ct_ros)
+           (par_out t.ct_parent) (csr_out t.ct_csr) (csingles_out t.ct_singles) (cranges_out t.ct_ranges)
+           (csingles_out t.ct_nd_singles) (cranges_out t.ct_nd_ranges))
+    | id :: "RT" :: [toks] ->
+      (match read_tokens_tu (tok_of_wire toks) with
+       | None -> Printf.printf "%s none\n" id
+       | Some t ->
+         Printf.printf "%s %s %s %s %s %s\n" id (hex_or_dash t.tt_name) (par_out t.tt_parent) (csr_out t.tt_csr)
+           (tsingles_out t.tt_singles) (tranges_out t.tt_ranges))
     | id :: _ -> Printf.printf "%s badcase\n" id
     | [] -> ())
